@@ -4,7 +4,7 @@ import WuffsVerif.Model.Rac.ChunkWriter
 import WuffsVerif.Model.Rac.Writer
 import WuffsVerif.Model.Rac.HCodec
 import WuffsVerif.Model.Rac.Spec
-import WuffsVerif.Model.Rac.Dict
+import WuffsVerif.Model.Rac.DictSaver
 /-! Line driver for C13 (lib/rac writer.go, chunk_writer.go; doc/spec/rac-spec.md).
 
 Stateless ops
@@ -92,7 +92,7 @@ def hashBytes (b : Bytes) : Nat :=
 
 /-- the test codec of the `dictsel` op (twin of `fakeCompress` in dict.go): the dictionary's first two bytes
 are the length of the "compressed" form, 0xFFFF is an error, the content is the dictionary's last byte -/
-def fakeCompress (base : Nat) (_p _q dict : Bytes) : Except Dict.DErr Bytes :=
+def fakeCompress (base : Nat) (_p _q dict : Bytes) : Except DictW.DErr Bytes :=
   match dict with
   | [] => .ok (List.replicate base 0xAA)
   | [a] => .ok (List.replicate a.toNat a)
@@ -100,7 +100,7 @@ def fakeCompress (base : Nat) (_p _q dict : Bytes) : Except Dict.DErr Bytes :=
     let n := a.toNat + 256 * b.toNat
     if n == 0xFFFF then .error .codec else .ok (List.replicate n ((b :: rest).getLast?.getD 0))
 
-def dErrWord : Dict.DErr → String
+def dErrWord : DictW.DErr → String
   | .dictionaryIsTooLong => "dictionary-too-long"
   | .invalidDictionary => "invalid-dictionary"
   | .codec => "codec-error"
@@ -201,23 +201,23 @@ def step (s : St) (l : List String) : St × String :=
   | ["dictwrap", c, seed, n] =>
     match seed.toNat?, n.toNat? with
     | some seed, some n =>
-      let refine := if c == "z" then Dict.refineZlib else Dict.refineZstd
-      (s, match Dict.wrapResource refine (genBytes seed n) with
+      let refine := if c == "z" then DictW.refineZlib else DictW.refineZstd
+      (s, match DictW.wrapResource refine (genBytes seed n) with
         | .ok w => s!"ok {w.length} {hashBytes w}"
         | .error e => "err " ++ dErrWord e)
     | _, _ => (s, "bad-op")
   | ["dictwraph", c, h] =>
     match fromHex h with
     | some h =>
-      let refine := if c == "z" then Dict.refineZlib else Dict.refineZstd
-      (s, match Dict.wrapResource refine h with
+      let refine := if c == "z" then DictW.refineZlib else DictW.refineZstd
+      (s, match DictW.wrapResource refine h with
         | .ok w => "ok " ++ toHex w
         | .error e => "err " ++ dErrWord e)
     | none => (s, "bad-op")
   | ["dictload", ttag, ter, h] =>
     match ttag.toNat?, fromHex h with
     | some ttag, some h =>
-      (s, match Dict.load h (ter == "1") ttag with
+      (s, match DictW.load h (ter == "1") ttag with
         | .ok d => "ok " ++ toHex d
         | .error e => "err " ++ dErrWord e)
     | _, _ => (s, "bad-op")
@@ -227,7 +227,7 @@ def step (s : St) (l : List String) : St × String :=
       let resources : Option (List Bytes) := if res == "none" then some [] else (res.splitOn ",").mapM fromHex
       match resources with
       | some resources =>
-        (s, match Dict.saverCompress (fakeCompress base) (Dict.lastN k) [] [] resources with
+        (s, match DictW.saverCompress (fakeCompress base) (DictW.lastN k) [] [] resources with
           | .ok (out, sec) => s!"ok {sec} {out.length} {toHex (out.take 1)}"
           | .error e => "err " ++ dErrWord e)
       | none => (s, "bad-op")
